@@ -97,6 +97,7 @@ def make_machine(mod, col, kinds=None, faults='some', rich=True, degenerate=True
             self.hist = []
             self.ro_id = None
             self.mid = 0
+            self.seen_s, self.seen_i = [], []
 
         @initialize(ro=gen.running_order(max_stories=max_stories, max_items=3, rich=rich,
                                          timing_mode=timing_mode, simple_ids=simple_ids))
@@ -109,11 +110,18 @@ def make_machine(mod, col, kinds=None, faults='some', rich=True, degenerate=True
         @rule(data=st.data())
         def send(self, data):
             state = xmlcmp.state_of(ET.fromstring(str(self.ro)))
+            for sid, its in state:
+                if sid not in self.seen_s:
+                    self.seen_s.append(sid)
+                for i in its:
+                    if i not in self.seen_i:
+                        self.seen_i.append(i)
             self.mid += data.draw(st.integers(1, 120))
             try:
                 _kind, msg_xml = data.draw(gen.message(
                     state, self.ro_id, kinds=kinds, faults=faults, rich=rich, mid=self.mid,
-                    degenerate=degenerate, timing_mode=timing_mode))
+                    degenerate=degenerate, timing_mode=timing_mode,
+                    stale_s=self.seen_s, stale_i=[i for i in self.seen_i if True]))
             except (IndexError, KeyError, ValueError, AssertionError, TypeError, AttributeError):
                 # a corrupted state (e.g. duplicate IDs produced by a defective tree) can be
                 # outside what the message generator handles: skip the step, keep the run
